@@ -67,6 +67,10 @@ PROPS = {
              {"checks": 6000, "timeout": 300},
              {"checks": 25000, "shards": 16, "timeout": 1800},
              assumptions=COMMON_ASSUME),
+    "C17": P("TestC17", "exploration",
+             {"checks": 3000, "timeout": 300},
+             {"checks": 12000, "shards": 16, "timeout": 1800},
+             assumptions=COMMON_ASSUME),
 }
 
 TRUST = "Trusted base: Go runtime, net/http, compress/*, google.golang.org/protobuf, rapid, and the harness's own reference wire layer as the reading of the protocol specs. Generated search: absence of violations is evidence over the explored cases only."
@@ -140,6 +144,11 @@ META = {
     "C07": {
         "technique": 'property-based testing (rapid): generated HTTP rules and messages; reference renderer and reference binder (body, then path variables, then query) written from google/api/http.proto as oracle, plus the pure round trip RPC->REST->RPC through two chained transcoders',
         "level_text": 'Generated exploration of rule shapes (body/response_body selectors of every field category, variables of every scalar kind) and of messages, REST requests rendered in several valid styles, overrides, misfits and unknown parameters; binding, inverse rendering and the chained identity are asserted.',
+        "level_note": TRUST,
+    },
+    "C17": {
+        "technique": 'property-based testing (rapid): generated configurations from valid building blocks with at most one injected defect of a listed category; three-valued servable() expectation (defect => reject with nil transcoder, valid blocks => accept) and, for accepted configurations, probes through the real ServeHTTP for reachability of every binding, exact selector binding and option override',
+        "level_text": 'Generated exploration of NewTranscoder inputs (service pools, protocol/codec/compression sets, defaults vs overrides, rule sets with 24 defect categories) with the accept/reject expectation known by construction, plus behavioural probes of every accepted configuration.',
         "level_note": TRUST,
     },
 }
